@@ -107,6 +107,11 @@ func getWorld(t testing.TB) *sandbox {
 	add("/e/x.txt", 4)
 	add("/static/s5", 5)
 	add("/static/s0", 0)
+	// a directory whose index file exists but whose compressed copy cannot be created (a directory sits on its name;
+	// stands in for a read-only file system / a directory the server may not write to)
+	must(os.MkdirAll(filepath.Join(w.root, "g", "index.html.hertz.gz"), 0o755))
+	w.dirs["/g"], w.dirs["/g/index.html.hertz.gz"] = true, true
+	add("/g/index.html", 30)
 	// names close to NAME_MAX: with the ".hertz.gz" suffix of the compressed copy they exceed it
 	add("/"+longName(250), 300)
 	add("/"+longName(246), 5000)
@@ -116,6 +121,7 @@ func getWorld(t testing.TB) *sandbox {
 		h.StaticFS("/fs", &app.FS{Root: w.root, AcceptByteRange: true, PathRewrite: strip, IndexNames: []string{"index.html"}})
 		h.StaticFS("/norange", &app.FS{Root: w.root, AcceptByteRange: false, PathRewrite: strip})
 		h.StaticFS("/gz", &app.FS{Root: w.root, AcceptByteRange: true, Compress: true, PathRewrite: strip})
+		h.StaticFS("/gzi", &app.FS{Root: w.root, AcceptByteRange: true, Compress: true, PathRewrite: strip, IndexNames: []string{"index.html"}})
 		h.StaticFS("/list", &app.FS{Root: w.root, AcceptByteRange: true, GenerateIndexPages: true, PathRewrite: strip})
 		// a short-lived file cache behind a middleware that can hold the response back after the file
 		// handler has returned (slow post-processing / slow client): the cache entry expires and the
@@ -152,7 +158,7 @@ func getWorld(t testing.TB) *sandbox {
 // Request is one generated request.
 type Request struct {
 	Method string `json:"method"`
-	Route  string `json:"route"` // "/fs", "/norange", "/gz", "/list", "/static", "/one", "/empty", "/file", "/fromfs"
+	Route  string `json:"route"` // "/fs", "/norange", "/gz", "/gzi", "/list", "/static", "/one", "/empty", "/file", "/fromfs"
 	Path   string `json:"path"`  // path under the root, e.g. "/f3"
 	Range  string `json:"range,omitempty"`
 	IMS    string `json:"if_modified_since,omitempty"` // "", "older", "equal", "newer", "garbage"
@@ -249,17 +255,10 @@ func rangeRef(v string, L int) (kind string, s, e int) {
 	if v == "" {
 		return "none", 0, 0
 	}
-	if k, s2, e2 := rangeRef0(v, L); k != "satisfiable" || !overflows(v) {
-		return k, s2, e2
-	} else {
-		// a position beyond int64: RFC 7233 clamps it, hertz refuses it as unparseable; both are accepted
-		return "satisfiable-or-refused", s2, e2
-	}
+	// (a position beyond int64 is a position beyond the end of the file: RFC 7233 clamps a last-byte-pos and a
+	// suffix-length, a first-byte-pos there is unsatisfiable)
+	return rangeRef0(v, L)
 }
-
-var reDigits = regexp.MustCompile(`\d{19,}`)
-
-func overflows(v string) bool { return reDigits.MatchString(v) }
 
 func rangeRef0(v string, L int) (kind string, s, e int) {
 	big1 := func(x string) (int, bool) {
@@ -345,14 +344,19 @@ func judge(w *sandbox, r *Request, pr *wire.ParsedResp) (string, string) {
 		return "404", ""
 	}
 	if isDir {
+		dirPath := strings.TrimSuffix(strings.TrimRight(normalize(r.target())[len(r.Route):], "/"), "/.")
+		idx, hasIdx := w.files[dirPath+"/index.html"]
+		indexRoute := r.Route == "/fs" || r.Route == "/gzi"
 		switch {
+		case (pr.Status == 403 || pr.Status == 404) && indexRoute && hasIdx:
+			return "bad", fmt.Sprintf("%s: the directory has the index file index.html (IndexNames) but is answered %d %q", id, pr.Status, short(pr.Body))
 		case pr.Status == 403 || pr.Status == 404:
 			return "dir-refused", ""
 		case pr.Status == 301 || pr.Status == 302 || pr.Status == 307 || pr.Status == 308:
 			return "dir-redirect", "" // trailing-slash redirect of the router
 		case pr.Status == 200 || pr.Status == 206 || pr.Status == 304 || pr.Status == 416:
-			if r.Route == "/fs" && strings.TrimRight(r.Path, "/") == "/d" {
-				content = w.files["/d/index.html"] // index file
+			if indexRoute && hasIdx {
+				content = idx // index file
 				break
 			}
 			if r.Route == "/list" || r.Route == "/file" {
@@ -406,7 +410,7 @@ func judge(w *sandbox, r *Request, pr *wire.ParsedResp) (string, string) {
 		if !rangesOn {
 			return "bad", id + ": 206 although byte ranges are disabled for this handler"
 		}
-		if kind != "satisfiable" && kind != "satisfiable-or-refused" {
+		if kind != "satisfiable" {
 			return "bad", fmt.Sprintf("%s: 206 for a range that is %s on a %d-byte file (Content-Range %q, body %q)", id, kind, L, wire.Get(pr.Headers, "Content-Range"), short(pr.Body))
 		}
 		if !identity {
@@ -508,7 +512,7 @@ func describe(reqs []*Request) string {
 
 func rangeForms(N int) []string {
 	out := []string{"bytes=", "bytes=-", "bytes", "bytes=a-b", "bytes=1-x", "bytes=x-1", "items=0-1", "bytes 0-1", "bytes= 0-1", "bytes=0 - 1", "bytes=0-1 ", "Bytes=0-1",
-		"bytes=99999999999999999999-", "bytes=0-99999999999999999999", "bytes=-99999999999999999999", "bytes=18446744073709551615-18446744073709551616", "bytes=--1", "bytes=1--1", "bytes=-1-", "bytes=+1-2"}
+		"bytes=99999999999999999999-", "bytes=0-99999999999999999999", "bytes=-99999999999999999999", "bytes=18446744073709551615-18446744073709551616", "bytes=2-9223372036854775808", "bytes=0-82000000000000000000", "bytes=0-81000000000000000000", "bytes=-9223372036854775808", "bytes=0-100000000000000000000000000000", "bytes=82000000000000000000-", "bytes=--1", "bytes=1--1", "bytes=-1-", "bytes=+1-2"}
 	for a := 0; a <= N+1; a++ {
 		out = append(out, fmt.Sprintf("bytes=%d-", a), fmt.Sprintf("bytes=-%d", a))
 		for b := 0; b <= N+1; b++ {
@@ -565,7 +569,7 @@ func TestC08RangeGrid(t *testing.T) {
 func TestC08Random(t *testing.T) {
 	rec := ev.New("random")
 	w := getWorld(t)
-	paths := []string{"/f0", "/f1", "/f2", "/f5", "/f12", "/small-1", "/small", "/small+1", "/big", "/d", "/d/", "/d/index.html", "/d/other.txt", "/e", "/e/", "/e/x.txt", "/missing", "/f1/", "/f1/x", "/", "",
+	paths := []string{"/f0", "/f1", "/f2", "/f5", "/f12", "/small-1", "/small", "/small+1", "/big", "/d", "/d/", "/d/index.html", "/d/other.txt", "/g", "/g/", "/g/index.html", "/e", "/e/", "/e/x.txt", "/missing", "/f1/", "/f1/x", "/", "",
 		"/../secret.txt", "/%2e%2e/secret.txt", "/d/../../secret.txt", "/..%2fsecret.txt", "/d/%2e%2e/%2e%2e/secret.txt", "/.", "/./f1", "//f1", "/d//other.txt", "/f1%00", "/static/s5", "/static/s0",
 		"/" + longName(250), "/" + longName(246), "/d/" + longName(255), "/" + longName(251)}
 	rapid.Check(t, func(t *rapid.T) {
@@ -574,7 +578,7 @@ func TestC08Random(t *testing.T) {
 		nt := false
 		for i := 0; i < k; i++ {
 			r := &Request{Method: rapid.SampledFrom([]string{"GET", "GET", "HEAD"}).Draw(t, "method"),
-				Route: rapid.SampledFrom([]string{"/fs", "/fs", "/norange", "/gz", "/list", "/static", "/one", "/empty", "/file", "/fromfs"}).Draw(t, "route")}
+				Route: rapid.SampledFrom([]string{"/fs", "/fs", "/norange", "/gz", "/gzi", "/list", "/static", "/one", "/empty", "/file", "/fromfs"}).Draw(t, "route")}
 			r.Path = rapid.SampledFrom(paths).Draw(t, "path")
 			if r.Route == "/file" || r.Route == "/fromfs" {
 				r.Path = rapid.SampledFrom([]string{"/f0", "/f3", "/f12", "/small", "/small+1", "/big", "/missing", "/d", "/e"}).Draw(t, "name")
@@ -606,7 +610,7 @@ func TestC08Random(t *testing.T) {
 			if rapid.IntRange(0, 4).Draw(t, "ims") == 0 {
 				r.IMS = rapid.SampledFrom([]string{"older", "equal", "newer", "garbage"}).Draw(t, "imsKind")
 			}
-			if (r.Route == "/gz" || r.Route == "/file") && rapid.Bool().Draw(t, "gzip") {
+			if (r.Route == "/gz" || r.Route == "/gzi" || r.Route == "/file") && rapid.Bool().Draw(t, "gzip") {
 				r.Gzip = true
 			}
 			reqs = append(reqs, r)
@@ -855,6 +859,85 @@ func TestC08VHost(t *testing.T) {
 	for st, n := range statuses {
 		rec.Class(fmt.Sprintf("status-%d", st), n)
 	}
+}
+
+// TestC08RawParam: a file handler behind a route parameter on a server that routes on the raw path
+// (WithUseRawPath, parameter values unescaped): the prefix-stripping rewriter "/" + Param("filepath")
+// honours the documented contract of PathRewriteFunc (no "/../" inside) and still can hand the handler a
+// path that is or ends in "/..". Whatever the target, nothing from outside the root may be served: no
+// canary content, no canary names in a generated listing.
+func TestC08RawParam(t *testing.T) {
+	rec := ev.New("raw-param")
+	w := getWorld(t)
+	rewrite := func(ctx *app.RequestContext) []byte { return []byte("/" + ctx.Param("filepath")) }
+	s := sconn.NewServer(func(h *server.Hertz) {
+		h.StaticFS("/idx", &app.FS{Root: w.root, PathRewrite: rewrite, IndexNames: []string{"index.html"}})
+		h.StaticFS("/ls", &app.FS{Root: w.root, PathRewrite: rewrite, GenerateIndexPages: true})
+	}, server.WithUseRawPath(true))
+	defer s.Close()
+	dots := []string{"..", "%2e%2e", "%2E%2E", ".%2e", "%2e."}
+	var targets []string
+	for _, mount := range []string{"/idx", "/ls"} {
+		targets = append(targets, mount+"/f5", mount+"/d/", mount+"/")
+		for _, d := range dots {
+			targets = append(targets, mount+"/"+d, mount+"/"+d+"/", mount+"/d/"+d+"/"+d, mount+"/d/"+d+"/"+d+"/", mount+"/"+d+"/secret.txt", mount+"/"+d+"%2fsecret.txt", mount+"/d%2f"+d+"%2f"+d, mount+"/"+d+"/"+d)
+		}
+	}
+	statuses := map[int]int64{}
+	for _, method := range []string{"GET", "HEAD"} {
+		for _, target := range targets {
+			rec.Case(strings.Contains(target, "2e") || strings.Contains(target, "2E") || strings.Contains(target, ".."), ev.HashString(method, target), "raw-param-target")
+			res := s.Serve(sconn.New([][]byte{[]byte(method + " " + target + " HTTP/1.1\r\nHost: example.com\r\nConnection: close\r\n\r\n")}, sconn.EOF))
+			fail := func(f string, a ...interface{}) {
+				msg := fmt.Sprintf("%s %q: ", method, target) + fmt.Sprintf(f, a...)
+				ev.Fail(prop, "raw-param", map[string]string{"method": method, "target": target}, msg)
+				t.Errorf("%s", msg)
+			}
+			if res.Panic != nil {
+				fail("panic: %v", res.Panic)
+				continue
+			}
+			if bytes.Contains(res.Output, []byte(canary)) {
+				fail("the response exposes content or names from outside the root: %.300q", res.Output)
+				continue
+			}
+			pr, err := wire.ReadResponse(res.Output, 0, method)
+			if err != nil {
+				fail("response is not well-formed: %v: %q", err, short(res.Output))
+				continue
+			}
+			statuses[pr.Status]++
+			// HEAD shows no body: the headers of an answer taken from outside the root still give it away
+			if method == "HEAD" && pr.Status == 200 && climbsOut(target[strings.Index(target[1:], "/")+1:]) {
+				fail("HEAD on a target that climbs out of the root answered 200")
+			}
+			if strings.HasSuffix(target, "/f5") && (pr.Status != 200 || (method == "GET" && !bytes.Equal(pr.Body, w.files["/f5"]))) {
+				fail("the file f5 under the root is not served: status %d body %q", pr.Status, short(pr.Body))
+			}
+		}
+	}
+	for st, n := range statuses {
+		rec.Class(fmt.Sprintf("status-%d", st), n)
+	}
+}
+
+// climbsOut: the path (percent-decoded once) leaves the directory it starts in
+func climbsOut(p string) bool {
+	d := strings.NewReplacer("%2e", ".", "%2E", ".", "%2f", "/", "%2F", "/").Replace(p)
+	depth := 0
+	for _, seg := range strings.Split(d, "/") {
+		switch seg {
+		case "", ".":
+		case "..":
+			depth--
+			if depth < 0 {
+				return true
+			}
+		default:
+			depth++
+		}
+	}
+	return false
 }
 
 func TestC08Replay(t *testing.T) {
